@@ -34,7 +34,7 @@ NOT_COVERED = [
     "commuting matrices is associative/commutative (cited) and says nothing about float rounding",
     "mat_power's functional contract (result = M^p) is proved for symbolic p on 1x1 matrices; for n x n only its padding contract",
     "the eigh route's residual-to-accuracy implication and its exact zeros on padding (depend on LAPACK's output for a block-diagonal input)",
-    "LOBPCG deflation (lobpcg_topk_precondition > 0 has no contract); that a Rayleigh quotient of a unit vector is <= lambda_max (cited lemma; the estimate IS such a quotient: tasks power_iteration *); float32 compute dtype effects",
+    "LOBPCG deflation: only WHAT is reported on that route is proved (lobpcg_standard is an opaque contract); that a Rayleigh quotient of a unit vector is <= lambda_max (cited lemma; the estimate IS such a quotient: tasks power_iteration *); float32 compute dtype effects",
 ]
 
 
@@ -403,6 +403,59 @@ def mk_newton(rel_eps, padded):
   return t
 
 
+def mk_lobpcg(padded):
+  """LOBPCG-deflated route, what is REPORTED (P3' for this route): the error figure returned is the residual of the
+  RETURNED matrix against the unconditioned A + dI (max of the diagonal and off-diagonal diagnostics), 0 for an
+  all-padding input - not the Newton figure of the deflated sub-problem.  lobpcg_standard enters as an opaque
+  contract (k eigenvalues, n x k vectors, an iteration count)."""
+
+  def t(ctx, it):
+    m = it.load_module(DS)
+    k = 2
+    n = spec.fresh_int("n", lo=3)
+    ps = None
+    if padded:
+      ps = spec.fresh_int("padding_start", lo=0)
+      ctx.assume(ps <= n)
+    p = spec.fresh_int("p", lo=1)
+    A = T.opaque("A", (n, n))
+    it.call_contracts["power_iteration"] = pi_contract(ctx)
+    # the padding invariant is not the claim here (and needs LOBPCG's vectors to vanish on padding rows): the loops are
+    # abstracted by arbitrary states, mat_power by an opaque result
+    it.call_contracts["mat_power"] = lambda interp, fn, args, kwargs: T.opaque("mat_power_result", args[0].shape)
+
+    def havoc_in(env, k_):
+      env["state"] = (T.asarray(spec.fresh_int("it", lo=0)), T.opaque("mat_m", (n, n)), T.opaque("mat_h", (n, n)), T.opaque("old_mat_h", (n, n)),
+                      T.asarray(spec.fresh_real("err", lo=0)), T.asarray(spec.fresh_real("err_ratio")))
+
+    def havoc_out(env, k_):
+      env["state"] = (T.asarray(spec.fresh_int("retry", lo=0)), T.opaque("resultant", (n, n)), T.asarray(spec.fresh_real("o_err", lo=0)),
+                      T.asarray(spec.fresh_int("o_iters", lo=0)), T.asarray(spec.fresh_real("o_ratio")), T.asarray(spec.fresh_bool("failed")))
+
+    it.loop_contracts[("lax.while_loop", Q + ".<locals>._iter_body")] = I.LoopContract(lambda env, k_: True, havoc_in, "newton.inner.any")
+    it.loop_contracts[("lax.while_loop", Q + ".<locals>._outer_body_fn")] = I.LoopContract(lambda env, k_: True, havoc_out, "newton.retry.any")
+    mod_linalg = m.__env__.vars["linalg"]
+    import types
+    ctx.axioms_used.add("lobpcg_standard: opaque (eigenvalues (k,), eigenvectors (n,k), iteration count)")
+    m.__env__.vars["linalg"] = types.SimpleNamespace(
+        lobpcg_standard=lambda mat, dirs, iters: (T.opaque("lobpcg_w", (k,)), T.opaque("lobpcg_v", (n, k)), T.asarray(spec.fresh_int("lobpcg_iters", lo=0))))
+    try:
+      eps = spec.fresh_real("ridge_epsilon", lo=0)
+      res, metrics = m.matrix_inverse_pth_root(A, p, ridge_epsilon=eps, relative_matrix_epsilon=True,
+                                               padding_start=(T.asarray(ps) if padded else None), lobpcg_topk_precondition=k)
+    finally:
+      m.__env__.vars["linalg"] = mod_linalg
+    diag = metrics.inverse_pth_root_diagnostics
+    want = sym.smax(diag.max_diag_error.item(), diag.max_off_diag_error.item())
+    err = metrics.inverse_pth_root_errors.item()
+    if padded:
+      want = sym.ite(ps == 0, 0.0, want)
+    ctx.oblige(f"{Q}.P3'.LOBPCG route: the reported error is the residual of the returned matrix against the UNCONDITIONED A + dI "
+               "(max of the diagonal / off-diagonal diagnostics; 0 for an all-padding input)", err == want)
+
+  return t
+
+
 def t_outer_body(ctx, it):
   """One retry-loop body: ridge formula, what `error` is, the convergence blend (P3')."""
   m = it.load_module(DS)
@@ -535,6 +588,8 @@ def mk_eigh(rel_eps, padded):
 def tasks(tier):
   ts = [Task("mat_power", t_mat_power), Task("mat_power value", t_mat_power_value), Task("newton retry body", t_outer_body),
         Task("newton residual algebra (honest error)", t_residual_algebra),
+        Task("newton with LOBPCG deflation: reported error[padded]", mk_lobpcg(True)),
+        Task("newton with LOBPCG deflation: reported error[unpadded]", mk_lobpcg(False)),
         Task("power_iteration body", t_pi_body), Task("power_iteration result[padded]", mk_pi_result(True)),
         Task("power_iteration result[unpadded]", mk_pi_result(False))]
   for rel in (True, False):
